@@ -1,4 +1,5 @@
 import Svgbob.Proofs.Shift
+import Svgbob.Proofs.ForestMove
 import Svgbob.Proofs.MoveAll2
 import Svgbob.Proofs.FrontShift
 /-!
@@ -121,5 +122,22 @@ example : ((endorseAll (fun c => c.length) ⟨[], [], [], []⟩ (Span.shift 7 3 
 example : Frag.merge (fun c => c.length) (Frag.move 400 200 (.line ⟨0, 0⟩ ⟨1000, 2000⟩ false))
     (Frag.move 400 200 (.line ⟨1000, 2000⟩ ⟨2000, 4000⟩ false)) =
     some (Frag.move 400 200 (.line ⟨0, 0⟩ ⟨2000, 4000⟩ false)) := by decide
+
+/-! ### the last stage: nesting, tag classes and emission order -/
+
+/-- the unit-scale copy the containment forest works on moves with the fragment -/
+theorem unit_scale_copy_moves (k n : Int) (f : Frag) : (f.move k n).scale 1 = (f.scale 1).move k n := by
+  cases f <;>
+    simp [Frag.move, Frag.absPos, Frag.scale, Pt.scale, Pt.add, Cell.origin, cellTextAnchor] <;>
+    (try constructor) <;> (try omega)
+
+/-- **the containment forest of the moved fragments is the moved forest**: which fragment nests in
+which, which shape a `{tag}` styles and the order of emission are the same wherever the drawing
+stands (every fragment of the pipeline can be moved: `pipeline_fragments_movable`) -/
+theorem nesting_is_position_independent (len : List Char → Nat) (unit : Int) (k n : Int)
+    (trees : List FTree) (h : ∀ t ∈ trees, FTree.AllMovable t) :
+    encloseRecursive len unit (trees.map (FTree.move k n)) =
+      (encloseRecursive len unit trees).map (FTree.move k n) :=
+  encloseRecursive_move len unit k n trees h
 
 end Svgbob.C06
